@@ -17,7 +17,7 @@ def consts(maxids, maxev, maxsteps, dt100, delays, ops, spawn='[t \\in {"a","b"}
 
 
 OPS_EXH = '{"Create","Delete","SetState","Send","RunStep"}'
-OPS_ALL = '{"Create","Delete","Configure","SetState","Send","Plan","RunStep"}'
+OPS_ALL = '{"Create","Delete","Configure","SetState","Send","Plan","PlanBegin","RunStep"}'
 
 
 def run(tier, replay_file=None):
@@ -50,6 +50,18 @@ def run(tier, replay_file=None):
     hu, _ = gen.histories("Abm", consts(2, 2, 3, 100, '{0}', '{"Create","SetState","Send","RunStep"}'), 7, defs=UNH, extra_cfg={"action_constraints": ["MC_Unh"]})
     sets.append((hu, 100, None))
     R.cov["bfs_histories_unhandled_then_handled"] = len(hu)
+    # events sent by the model itself from begin_round, next to events sent from act() in the same step: every history
+    BEG = ('MC_Beg == LET n == Len(hist\') h == hist\'[n] IN /\\ (n = 1 => h.op = "Create") /\\ (n \\in {2, 3} => h.op \\in {"Plan", "PlanBegin"} /\\ h.k = 0)\n'
+           '             /\\ (n = 2 => h.op = "PlanBegin") /\\ (n >= 4 => h.op = "RunStep")\n')
+    hb, _ = gen.histories("Abm", consts(1, 2, 3, 100, '{0,100}', '{"Create","Plan","PlanBegin","RunStep"}'), 6, defs=BEG, extra_cfg={"action_constraints": ["MC_Beg"]})
+    sets.append((hb, 100, None))
+    R.cov["bfs_histories_begin_round_sends"] = len(hb)
+    # the scheduler object replaced between two steps while delayed events are counting down: every history
+    NSC = ('MC_Nsc == LET n == Len(hist\') h == hist\'[n] IN /\\ (n = 1 => h.op = "Create") /\\ (n = 2 => h.op = "Send")\n'
+           '             /\\ (n >= 3 => h.op \\in {"RunStep", "NewScheduler"}) /\\ (n >= 4 /\\ h.op = "NewScheduler" => hist\'[n - 1].op = "RunStep")\n')
+    hn, _ = gen.histories("Abm", consts(1, 1, 4, 100, '{0,100,200}', '{"Create","Send","NewScheduler","RunStep"}'), 8, defs=NSC, extra_cfg={"action_constraints": ["MC_Nsc"]})
+    sets.append((hn, 100, None))
+    R.cov["bfs_histories_scheduler_replaced"] = len(hn)
     nsim = 0
     menus = [(100, '{0,100,200,300}'), (50, '{0,30,50,70,100,150}'), (10, '{0,10,20,30,70,100}'),
              (25, '{0,25,50,60,75,100}'), (20, '{0,20,40,60,100}')]
